@@ -30,6 +30,7 @@ sys.path.insert(0, HERE)
 import child as childmod  # noqa: E402
 import oracle as oraclemod  # noqa: E402
 import runner  # noqa: E402
+import source_consts  # noqa: E402
 
 REPO = os.path.realpath(os.environ.get("VERIF_REPO", "/repo"))
 WORK = os.path.join(ROOT, "work", "C19")
@@ -45,8 +46,8 @@ SO = os.path.join(TARGET, "debug", "libcameleon_gentl.so")
 CWD = os.path.join(REPO, "gentl")
 U64 = 1 << 64
 RULE = ("a case = one call sequence run in its own child process; non-trivial = at least one call after "
-        "GCInitLib returned 0 with outputs (info value, port bytes, opened handle); distinct by hash of "
-        "(sequence, results)")
+        "GCInitLib other than init/close-lib/last-error/TLClose/IFClose returned 0 (an info value, port bytes, an "
+        "opened handle); distinct by hash of (sequence, results)")
 
 
 # ---------------------------------------------------------------------------- plumbing
@@ -284,13 +285,24 @@ def discover(pool, rep, camdrv):
         xmls[kind] = parse_xml(p)
         agree(xmls[kind]["error"] is None, "embedded XML of the %s module parses" % kind, str(xmls[kind]["error"]))
     # model's register tables
-    cfg = ["cfg path " + hexs(path_exp), "cfg sysxml " + hexs(sys_xml), "cfg ifxml " + hexs(if_xml), "layout"]
+    # message texts and constants of the CURRENT source (environment parameters of the model)
+    try:
+        consts = source_consts.extract(REPO)
+    except source_consts.ExtractError as e:
+        rep.disagree("source constants", "-", "cannot read the producer's constants from the source: %s" % e)
+        return None
+    rep.extra["source_constants"] = {"errtext_AccessDenied": consts["errtext"][4].decode(errors="replace"),
+                                     "sys": {k: (v.decode(errors="replace") if isinstance(v, bytes) else v) for k, v in consts["sys"].items()},
+                                     "if": {k: (v.decode(errors="replace") if isinstance(v, bytes) else v) for k, v in consts["if"].items()},
+                                     "gentl": consts["gentl"], "schema": consts["schema"]}
+    cfg = ["cfg path " + hexs(path_exp), "cfg sysxml " + hexs(sys_xml), "cfg ifxml " + hexs(if_xml), "cfg goodid " + hexs(good_id)]
+    cfg += source_consts.cfg_lines(consts) + ["layout"]
     ans = run_model(camdrv, cfg)
-    if len(ans) != 4 or ans[:3] != ["ok"] * 3:
+    if len(ans) != len(cfg) or ans[:-1] != ["ok"] * (len(cfg) - 1):
         rep.disagree("cfg/layout", "-", "driver answered %r" % (ans,))
         return None
     model_tabs = {}
-    for part in ans[3].split(" | "):
+    for part in ans[-1].split(" | "):
         t = part.split()
         model_tabs[t[0]] = {"regs": [tuple(x.split(":")) for x in t[1:] if x.count(":") == 3],
                             "size": int([x for x in t if x.startswith("size=")][0][5:]),
@@ -318,7 +330,7 @@ def discover(pool, rep, camdrv):
         agree(xa == max([a + l for (a, l, _) in regs] + [0]), "XML address of %s = end of the register block" % kind, str(xa))
     rep.extra["xml"] = {k: {kk: v[kk] for kk in ("vendor", "model", "version", "schema", "tooltip", "guid", "ports")}
                         for k, v in xmls.items()}
-    env = {"cfg": cfg[:3], "good_id": good_id, "path": path_exp, "xmls": xmls,
+    env = {"cfg": cfg[:-1], "good_id": good_id, "path": path_exp, "xmls": xmls,
            "sys": (len(sys_img), sys_xa, sys_xl), "if": (len(if_img), if_xa, if_xl), "if_wo": first}
     return pool, env, specs
 
@@ -328,14 +340,70 @@ SM_ALPHABET = ["init", "closelib", "tlopen 0", "tlclose 0", "tlopenif 0 good 1",
 OPEN = ["init", "tlopen 0", "tlopenif 0 good 1"]
 
 
-def gen_state_machine(depth):
-    """every sequence over SM_ALPHABET of length 1..depth, + a trailing last-error query"""
+# the same with a stored-then-failed selector write and its read-back: register memory and event
+# queues across close / reopen of the modules and of the library
+SM_ALPHABET_MEM = SM_ALPHABET + ["write 0 1028 05000000", "read 0 1028 4"]
+
+
+def gen_state_machine(depth, alphabet_=None):
+    """every sequence over the alphabet of length 1..depth, + a trailing last-error query"""
     seqs = []
     cur = [[]]
     for _ in range(depth):
-        cur = [s + [a] for s in cur for a in SM_ALPHABET]
+        cur = [s + [a] for s in cur for a in (alphabet_ or SM_ALPHABET)]
         seqs.extend(cur)
     return [s + ["lasterr 160"] for s in seqs]
+
+
+def gen_reopen(env):
+    """register memory and pending events ACROSS close / reopen: {stored, stored-then-failed,
+    double-event writes} x {IFClose+reopen, TLClose+reopen, GCCloseLib+GCInitLib(+reopen)} x
+    whole-map digests + one further (empty, accepted) write that would run a stale event"""
+    sys_full = "read 0 0 %d" % env["sys"][0]
+
+    def if_full(slot):
+        return "read %d %d %d" % (slot, env["if_wo"], env["if"][0] - env["if_wo"])
+    sys_writes = [["write 0 1028 05000000"], ["write 0 1028 00000000"], ["write 0 1029 0100"],
+                  ["write 0 1028 05000000", "write 0 1030 -"], ["writes 0 2 1028 07000000 1028 00000000"]]
+    if_writes = [["write 1 4 07000000"], ["write 1 0 01000000"], ["write 1 0 0100000002000000"], ["write 1 3 0100"],
+                 ["write 1 7 03"], ["writes 1 2 4 09000000 0 01000000"], ["write 1 3 0100", "write 1 4 02000000"]]
+    # (reopen steps, system slot afterwards, interface slots afterwards)
+    reopens = [
+        (["ifclose 1", "tlopenif 0 good 1"], 0, [1]),
+        (["tlclose 0", "tlopen 0", "tlopenif 0 good 2"], 0, [2, 1]),
+        (["closelib", "init"], 0, [1]),
+        (["closelib", "init", "ifclose 1", "tlclose 0", "tlopen 0", "tlopenif 0 good 1"], 0, [1]),
+        (["ifclose 1", "tlclose 0", "closelib", "init", "tlopen 0", "tlopenif 0 good 1"], 0, [1]),
+        (["tlclose 0", "closelib", "init", "tlopen 2", "tlopenif 2 good 3"], 2, [3, 1]),
+    ]
+    seqs = []
+    for writes in sys_writes + if_writes:
+        for (steps, sslot, islots) in reopens:
+            after = [sys_full.replace("read 0", "read %d" % sslot)] + [if_full(i) for i in islots]
+            more = ["write %d 1030 -" % sslot, "write %d 1028 00000000" % sslot] + \
+                   [w for i in islots for w in ("write %d 100 -" % i, "write %d 100 -" % i)]
+            seqs.append(OPEN + writes + ["lasterr 160"] + steps + after + more + after + ["lasterr 160"])
+    return seqs
+
+
+def gen_threads(rng, count):
+    """LAST_ERROR is per thread: the same child makes calls on two threads (`t2:` prefix); a
+    failing call on one thread must not show up in, or disturb, the other thread's last error.
+    Evaluated by the oracle only (the model is single-threaded)."""
+    fails = ["tlinfo 0 99 8", "tlclose 9", "read 0 100000 4", "write 0 0 00", "tlifid 0 7 64", "tlopenif 0 bad 4", "init", "tlinfo 0 0 1"]
+    oks = ["tlinfo 0 0 64", "tlnum 0", "read 0 1028 4", "ifnum 1"]
+    seqs = [
+        OPEN + ["tlinfo 0 99 8", "t2:lasterr 160", "lasterr 160", "t2:tlclose 9", "lasterr 160", "t2:lasterr 160",
+                "t2:lasterr 4", "t2:lasterr 160", "lasterr null:0"],
+        ["t2:tlnum 9", "tlopen 0", "init", "t2:lasterr 160", "lasterr 160"],
+    ]
+    for _ in range(count):
+        ops = list(OPEN)
+        for _ in range(10):
+            op = rng.pick(fails) if rng.chance(1, 2) else rng.pick(oks) if rng.chance(1, 3) else rng.pick(["lasterr 160", "lasterr null:0", "lasterr 3"])
+            ops.append(("t2:" if rng.chance(1, 2) else "") + op)
+        seqs.append(ops + ["lasterr 160", "t2:lasterr 160"])
+    return seqs
 
 
 INFO_FAMILIES = [
@@ -435,6 +503,9 @@ def gen_refusal_sweeps():
     for op in alphabet(1, dst=5):                                       # interface handle whose interface was closed by TLClose
         if not op.startswith(("tlclose", "closelib")):
             seqs.append(OPEN + ["tlclose 0", "tlopen 0", op, "lasterr 160"])
+    for h in (0, 2):                                                    # the reopened system / interface
+        for op in alphabet(h, dst=5):
+            seqs.append(OPEN + ["tlclose 0", "tlopen 0", "tlopenif 0 good 2", op, "lasterr 160"])
     return seqs
 
 
@@ -680,7 +751,7 @@ def is_crash(r):
     return r in ("panic", "hang") or r.startswith("signal:")
 
 
-def evaluate(rep, orc, stage, seqs, results):
+def evaluate(rep, orc, stage, seqs, results, model=True):
     for ops, res in zip(seqs, results):
         if any(r.startswith("PYERR") or r.startswith("child-error") for r in res):
             raise RuntimeError("probe bug on %r: %r" % (ops, res))
@@ -690,17 +761,22 @@ def evaluate(rep, orc, stage, seqs, results):
         lib = False
         for op, r in zip(ops, res):
             k = op.split()[0]
+            if k.startswith("t2:"):
+                k = k[3:]
+            if k.startswith("np:"):
+                k = "np:" + op.split()[1]
             code = r.split()[0]
             rep.count("op:" + k)
             rep.count("outcome:" + (code if not is_crash(r) else "CRASH") if r != "skip" else "outcome:skipped-freed-handle")
             if k == "init" and code == "0":
                 lib = True
-            elif code == "0" and lib and k not in ("init", "closelib", "lasterr"):
+            elif code == "0" and lib and k.split(":")[-1] not in ("init", "closelib", "lasterr", "tlclose", "ifclose"):
                 nontriv = True
         # '@key=value' tokens are notes for the oracle (pointer identities), not part of the model
         line = " ; ".join(" ".join(x for x in r.split(" ") if not x.startswith("@")) for r in res)
         rep.case(" ; ".join(ops) + " => " + line, nontriv)
-        rep.pending.append(("seq " + " ; ".join(ops), line, ops))
+        if model:
+            rep.pending.append(("seq " + " ; ".join(ops), line, ops))
         before = len(orc.violations)
         orc.run(ops, res)
         for (sig, what, vops) in orc.violations[before:]:
@@ -766,7 +842,7 @@ def flush_model(rep, env, camdrv):
     if not pend:
         return
     lines = env["cfg"] + [p[0] for p in pend]
-    ans = run_model(camdrv, lines)[3:]
+    ans = run_model(camdrv, lines)[len(env["cfg"]):]
     if len(ans) != len(pend):
         rep.disagree("<stream>", "%d requests" % len(pend), "%d answers (driver died or desynchronised)" % len(ans))
     for i, (req, imp, ops) in enumerate(pend):
@@ -951,6 +1027,10 @@ def main():
             OPEN + ["ifparent 1", "tlclose 0", "ifparent 1", "tlopen 0", "tlopenif 0 good 2", "ifparent 2", "ifparent 1", "ifnum 1", "ifupd 1", "ifupd 2"],
         ]
         evaluate(rep, orc, label + "port-extra", extra, pool.run(extra, chunk=1))
+        seqs = gen_reopen(env)
+        evaluate(rep, orc, label + "memory-across-reopen", seqs, pool.run(seqs, chunk=4))
+        seqs = gen_threads(rng, 400 if thorough else 100)
+        evaluate(rep, orc, label + "two-threads", seqs, pool.run(seqs, chunk=8), model=False)
 
     sweeps(pool, "", rng)
     cross_checks(rep, orc, env)
@@ -969,6 +1049,9 @@ def main():
     seqs = gen_state_machine(depth)
     evaluate(rep, orc, "state-machine", seqs, pool.run(seqs, chunk=256))
     rep.extra["state_machine"] = {"alphabet": SM_ALPHABET, "depth": depth, "sequences": len(seqs)}
+    seqs = gen_state_machine(depth - 1, SM_ALPHABET_MEM)
+    evaluate(rep, orc, "state-machine-with-memory", seqs, pool.run(seqs, chunk=256))
+    rep.extra["state_machine_with_memory"] = {"alphabet": SM_ALPHABET_MEM, "depth": depth - 1, "sequences": len(seqs)}
     flush_model(rep, env, args.camdrv)
 
     # random depth-6 sequences over the whole alphabet
